@@ -136,7 +136,15 @@ def remember_shape(run, slide, shape):
 
 def geom(run, small=True):
     r = run.rnd
-    return gen.emu(r, small=small), gen.emu(r, small=small), gen.emu(r, signed=False, small=small), gen.emu(r, signed=False, small=small)
+    g = gen.emu(r, small=small), gen.emu(r, small=small), gen.emu(r, signed=False, small=small), gen.emu(r, signed=False, small=small)
+    if r.random() < 0.08:
+        # what `prs.slide_width / 2` or `Inches(3) * 0.5` give: Length arithmetic yields a float (whole or not); an adder either
+        # takes it and writes a whole number of EMU, or refuses it
+        from pptx.util import Emu
+
+        run.acc.count("geometry_given_as_float")
+        return tuple(Emu(v) / r.choice([1, 2, 2, 4]) for v in g)
+    return g
 
 
 # ---------------------------------------------------------------------------- deck ops
@@ -342,7 +350,8 @@ def op_add_connector(run):
     from pptx.enum.shapes import MSO_CONNECTOR
 
     s, shapes, where = a_container(run)
-    c = shapes.add_connector(run.rnd.choice(list(MSO_CONNECTOR)[:3]), *[gen.emu(run.rnd, small=True) for _ in range(4)])
+    g = geom(run)  # (begin_x, begin_y, end_x, end_y: any four coordinates; floats now and then, see geom)
+    c = shapes.add_connector(run.rnd.choice(list(MSO_CONNECTOR)[:3]), g[0], g[1], g[2] if run.rnd.random() < 0.5 else -g[2], g[3])
     remember_shape(run, s, c)
     run.acc.hit("add_connector")
     return where
@@ -450,7 +459,8 @@ def op_add_ole(run):
     kw = {}
     if run.rnd.random() < 0.4:
         kw["icon_file"] = f["img1"]
-    gf = shapes.add_ole_object(f["ole"], prog, gen.emu(run.rnd, small=True), gen.emu(run.rnd, small=True), **kw)
+    g = geom(run)
+    gf = shapes.add_ole_object(f["ole"], prog, g[0], g[1], **kw)
     remember_shape(run, s, gf)
     run.acc.hit("add_ole_object")
     return "%s in %s" % (prog, where)
